@@ -97,13 +97,21 @@ theorem kd_execOp (s : St) (op : Op) (h : KD s) : KD (execOp s op).1 := by
   | getKey k => simp only [execOp]; split <;> exact h
   | getKeys => exact h
   | getKeysWithData => exact h
-  | resetRoutine k => exact kd_resetKey s k h
-  | restartRoutine k => exact kd_restartKey s k h
-  | resetAll =>
+  | resetRoutine k cs =>
+    simp only [execOp]
+    split
+    · exact kd_resetKey s k h
+    · exact h
+  | restartRoutine k cs =>
+    simp only [execOp]
+    split
+    · exact kd_restartKey s k h
+    · exact h
+  | resetAll cs =>
     simp only [execOp]
     rw [foldl_fst resetAllStep (fun s k => (resetKey s k).1) (fun _ _ => rfl)]
     exact foldl_inv _ kd_resetKey _ _ h
-  | restartAll =>
+  | restartAll cs =>
     simp only [execOp]
     rw [foldl_fst restartAllStep (fun s k => (restartKey s k).1) (fun _ _ => rfl)]
     exact foldl_inv _ kd_restartKey _ _ h
@@ -187,7 +195,8 @@ theorem kd_step (s s' : St) (e : Ev) (h : KD s) (hs : step s e = some s') : KD s
     split at hs
     · rename_i op hc
       simp at hs; subst hs
-      exact dinv_congr (s := (execOp s op).1) rfl rfl rfl (kd_execOp s op h).d
+      exact dinv_congr (s := (execOp (preOp s op) op).1) rfl rfl rfl
+        (kd_execOp (preOp s op) op (kd_congr (preOp_keys s op) (preOp_fields s op).2.2.2.2.2.2 (preOp_fields s op).1 h)).d
     · simp at hs
   | ctor k d =>
     simp only [step] at hs
@@ -291,6 +300,15 @@ theorem kd_step (s s' : St) (e : Ev) (h : KD s) (hs : step s e = some s') : KD s
     simp only [step] at hs
     split at hs
     · simp at hs; subst hs; exact dinv_congr (s := s) rfl rfl rfl h.d
+    · simp at hs
+  | cancelroot =>
+    simp only [step] at hs
+    split at hs
+    · simp at hs; subst hs
+      have h0 : DInv ({ s with ctx := some 0 } : St) := dinv_congr (s := s) rfl rfl rfl h.d
+      exact foldl_inv (I := DInv) cancelGen (fun s g h =>
+        foldl_inv (I := DInv) (fun s i => cancelOpt s g (some i)) (fun s i h => dinv_cancelOpt s g (some i) h) _ _ h)
+        _ _ h0
     · simp at hs
 
 theorem dinv_init : DInv ({} : St) :=
